@@ -97,7 +97,11 @@ func (t *tree) gen(rng *rand.Rand, depth int, kind, name string) *node {
 			nl = 1
 		}
 		for i := 0; i < nl; i++ {
-			nd.Children = append(nd.Children, t.gen(rng, depth+1, "literal", fmt.Sprintf("l%d%c", depth, 'a'+i)))
+			ln := fmt.Sprintf("l%d%c", depth, 'a'+i)
+			if rng.Intn(5) == 0 {
+				ln = fmt.Sprintf("L%d%c", depth, 'A'+i)
+			}
+			nd.Children = append(nd.Children, t.gen(rng, depth+1, "literal", ln))
 		}
 		if rng.Intn(2) == 0 {
 			k := []string{"word", "int", "greedy"}[rng.Intn(3)]
@@ -117,7 +121,16 @@ func genTree(rng *rand.Rand) *tree {
 	}
 	m := 1 + rng.Intn(4)
 	for i := 0; i < m; i++ {
-		t.Roots = append(t.Roots, t.gen(rng, 0, "literal", fmt.Sprintf("p%c", 'a'+i)))
+		// a third of the root literals carry upper-case letters: commands are registered and
+		// typed with exactly this spelling (case-variant spellings of a line are not generated)
+		name := fmt.Sprintf("p%c", 'a'+i)
+		switch rng.Intn(6) {
+		case 0:
+			name = fmt.Sprintf("P%c", 'a'+i)
+		case 1:
+			name = fmt.Sprintf("p%cAdmin", 'A'+i)
+		}
+		t.Roots = append(t.Roots, t.gen(rng, 0, "literal", name))
 	}
 	return t
 }
